@@ -472,6 +472,43 @@ class Program:
                         out[x[1]].append((k, bi))
                     elif x[0] == "unknown":
                         out["<unknown: %s>" % x[1]].append((k, bi))
+                # external function items handed to a callee as generic arguments (callbacks)
+                b = self.bodies[k]
+                for name in self.fn_item_args(b, t):
+                    out[name].append((k, bi))
+        return out
+
+    def fn_item_args(self, body, term):
+        f = term["func"]
+        if "indirect" in f:
+            return []
+        out, seen = [], set()
+
+        def walk(tix):
+            if tix in seen:
+                return
+            seen.add(tix)
+            t = body.ty(tix)
+            k = t.get("k")
+            if k == "fndef":
+                if (t.get("key") or t["path"]) not in self.bodies:
+                    out.append(t["full"])
+            elif k == "adt":
+                for a in t.get("args", []):
+                    walk(a)
+            elif k in ("ref", "ptr"):
+                walk(t["to"])
+            elif k in ("slice", "array"):
+                walk(t["of"])
+            elif k == "tuple":
+                for e in t["elems"]:
+                    walk(e)
+        for tix in f.get("targs", []):
+            walk(tix)
+        # function items passed as plain arguments
+        for a in term.get("args", []):
+            if a["k"] == "const" and "fn" in a and a.get("fn_def") not in self.bodies:
+                out.append(a["fn"])
         return out
 
 
